@@ -166,7 +166,8 @@ def split_inputs(A, w, W, v, p, directed):
 
 
 def build(cls, A, w, W, directed):
-    net = cls(adjacency=A, directed=directed, node_weights=w,
+    net = cls(adjacency=G.represent_adj(A), directed=directed,
+              node_weights=G.represent_weights(w),
               silence_level=3)
     if W is not None:
         net.set_link_attribute("la", np.asarray(W, dtype=float))
